@@ -71,6 +71,37 @@ reg('C08',
     ' cards or burns.',
     'DESIGN.md 4 C08')
 
+reg('C02',
+    'Hypothesis-generated terminal histories (rigged deck orders, multi-way'
+    ' all-ins) vs a from-scratch pot/award reference model',
+    'Generated-history differential test: pot structure, rake, every'
+    ' ChipsPushing record, payoffs and the stated corollaries are compared'
+    ' with pkv/refaward.py + pkv/refeval.py on a pre-push snapshot.',
+    'Trusted: the two reference models; showdown hands known; odd chips'
+    ' routed by the documented remainder-to-first convention.',
+    'DESIGN.md 4 C02')
+reg('C06',
+    'Hypothesis-generated histories + card-multiset invariant and per-'
+    'operation pile rules after every operation',
+    'Generated-history search on all four deck sizes incl. deck exhaustion;'
+    ' observer after every operation.',
+    'User-supplied cards come from get_dealable_cards(count).',
+    'DESIGN.md 4 C06')
+reg('C09',
+    'Hypothesis-generated twin runs (automation subset S vs harness-performed'
+    ' defaults), metamorphic equality of logs and states',
+    'Twin-run metamorphic test over automation subsets (all 2^11 reachable in'
+    ' thorough): logs equal element by element, final states equal.',
+    'Reserved-card reshuffle replaced by a pure function in both runs.',
+    'DESIGN.md 4 C09')
+reg('C15',
+    'Hypothesis-generated histories: log replay on a fresh un-automated'
+    ' state, run-twice determinism, deep-copy twin',
+    'Round-trip / twin oracles: replayed records equal logged ones and final'
+    ' states equal; two runs identical; copy untouched and equivalent.',
+    'Fresh state differs only in deck order.',
+    'DESIGN.md 4 C15')
+
 NOT_APPLICABLE = {}
 
 ALL = [f'C{i:02d}' for i in range(1, 21)]
